@@ -1,0 +1,17 @@
+//go:build verif
+
+// Package verifexport re-exports internal libp2p packages for the verification harness.
+package verifexport
+
+import (
+	"github.com/gauss-project/aurorafs/pkg/aurora"
+	"github.com/gauss-project/aurorafs/pkg/p2p/libp2p/internal/handshake"
+)
+
+// ParseCheckAck is handshake.(*Service).parseCheckAck for a service with the given network id.
+func ParseCheckAck(networkID uint64, underlay, overlay, signature []byte) (*aurora.Address, error) {
+	return handshake.VerifParseCheckAck(networkID, underlay, overlay, signature)
+}
+
+// ErrInvalidAck is the handshake's error for a rejected ack record.
+var ErrInvalidAck = handshake.ErrInvalidAck
